@@ -77,7 +77,14 @@ fn gen_entry(r: &mut Rng, depth: usize) -> Entry {
         } else {
             match r.below(14) {
                 0 => Entry::File(vec![0xff, 0xfe, b'#', b'x', 0x80]),
-                1 => Entry::Symlink("a.typ".into()),
+                1 => {
+                    // a link to a file that is not an eligible target itself
+                    let target = r.pick(&["notes.txt", ".hidden.typ", "noext", "a.typ", "e.typ.bak"]).to_string();
+                    if !es.iter().any(|(k, _)| *k == target) && target != name {
+                        es.push((target.clone(), Entry::File(r.pick(&CONTENTS[1..7]).as_bytes().to_vec())));
+                    }
+                    Entry::Symlink(target)
+                }
                 _ => Entry::File(r.pick(CONTENTS).as_bytes().to_vec()),
             }
         };
